@@ -92,7 +92,7 @@ func genC02(r *RNG, tier string) []Case {
 	var cs []Case
 	o := smallOpts()
 	mk := func(kinds []int, class string) {
-		h := &hist{cfg: allCfgs[r.Intn(len(allCfgs))], ext: map[string][]string{}}
+		h := &hist{cfg: allCfgs[r.Intn(len(allCfgs))], ext: map[string][]string{}, qerr: r.Chance(1, 3)}
 		h.tables = genTables(r, o)
 		fileNo := 1
 		ts := uint32(1600000000)
@@ -106,7 +106,7 @@ func genC02(r *RNG, tier string) []Case {
 		}
 		base := histCase(h, firstFile, 4, class, len(kinds) >= 2 && boundary >= 1, "")
 		// the ignorable-insertion oracle: the same history without its ignorable units delivers the same changes
-		h2 := &hist{cfg: h.cfg, tables: h.tables, ext: h.ext}
+		h2 := &hist{cfg: h.cfg, tables: h.tables, ext: h.ext, qerr: h.qerr}
 		for _, u := range h.units {
 			if !isIgnorable(u) {
 				h2.units = append(h2.units, u)
@@ -164,7 +164,7 @@ func genC02(r *RNG, tier string) []Case {
 					b[i] -= 32
 				}
 			}
-			h := &hist{cfg: allCfgs[m%len(allCfgs)], ext: map[string][]string{}}
+			h := &hist{cfg: allCfgs[m%len(allCfgs)], ext: map[string][]string{}, qerr: m%3 == 1}
 			oo := o
 			oo.casing = false
 			h.tables = genTables(r, oo)
